@@ -533,6 +533,15 @@ fn dump_fn<'tcx>(
         let sig = tcx.fn_sig(did).instantiate_identity().skip_norm_wip();
         o.set("unsafe", J::Bool(sig.safety().is_unsafe()));
         o.set("sig", jstr(sig));
+        // where-clauses (own and inherited from the impl / trait): trait bounds are facts too (`C: MultipleOf<U16>`)
+        let preds: Vec<J> = tcx
+            .predicates_of(did)
+            .instantiate_identity(tcx)
+            .predicates
+            .iter()
+            .map(|p| jstr(format!("{:?}", p.skip_norm_wip())))
+            .collect();
+        o.set("preds", J::Arr(preds));
         o.set("vis", jstr(format!("{:?}", tcx.visibility(did))));
         let attrs = tcx.codegen_fn_attrs(did);
         let tf: Vec<J> = attrs.target_features.iter().map(|f| jstr(f.name)).collect();
